@@ -20,6 +20,8 @@ type Env struct {
 	bound     map[string]Val
 	preNames  map[string]Val
 	preState  *State
+	goal      bool // evaluating a proof goal (witness hints may be used in positive positions)
+	neg       bool
 }
 
 type evalErr struct{ msg string }
@@ -219,7 +221,13 @@ func (fx *FX) evalExpr(env *Env, e Expr) Val {
 		}
 		env.fail("unknown identifier %q", t.Name)
 	case *EUnary:
+		if t.Op == "!" {
+			env.neg = !env.neg
+		}
 		x := fx.evalExpr(env, t.X)
+		if t.Op == "!" {
+			env.neg = !env.neg
+		}
 		switch t.Op {
 		case "!":
 			return Val{T: Not(x.T)}
@@ -238,6 +246,22 @@ func (fx *FX) evalExpr(env *Env, e Expr) Val {
 	case *EBinary:
 		return fx.evalBinary(env, t)
 	case *EQuant:
+		if !t.All && env.goal && !env.neg && len(t.Wit) == len(t.Vars) {
+			all := true
+			for _, wv := range t.Wit {
+				if wv == nil {
+					all = false
+				}
+			}
+			if all {
+				// exists with witnesses in goal position: prove the instance
+				sub := map[string]Expr{}
+				for i, v := range t.Vars {
+					sub[v] = t.Wit[i]
+				}
+				return fx.evalExpr(env, substExpr(t.Body, sub))
+			}
+		}
 		saved := map[string]Val{}
 		var decls []string
 		for i, v := range t.Vars {
@@ -313,6 +337,16 @@ func (fx *FX) evalExpr(env *Env, e Expr) Val {
 			return Val{T: r, Typ: el}
 		case x.T.Sort == SStr:
 			return Val{T: strAt(x.T, i.T), Typ: types.Typ[types.Byte]}
+		case x.Typ != nil && isMapType(x.Typ):
+			mt := x.Typ.Underlying().(*types.Map)
+			k := fx.evalExpr(env, t.I)
+			vs, ks := w.SortOf(mt.Elem()), w.SortOf(mt.Key())
+			fname := "map_get_" + sortID(ks) + "_" + sortID(vs)
+			hname := "map_has_" + sortID(ks)
+			w.Declare(fname, fmt.Sprintf("(declare-fun %s (Int %s) %s)", fname, ks, vs))
+			w.Declare(hname, fmt.Sprintf("(declare-fun %s (Int %s) Bool)", hname, ks))
+			v := Ite(app(hname, SBool, x.T, k.T), app(fname, vs, x.T, k.T), w.Zero(mt.Elem()))
+			return Val{T: v, Typ: mt.Elem()}
 		case strings.HasPrefix(x.T.Sort, "(Array "):
 			is, _ := splitArray(x.T.Sort)
 			i = coerce(fx.evalExpr(env, t.I), is, true)
@@ -404,9 +438,16 @@ func (fx *FX) evalBinary(env *Env, t *EBinary) Val {
 	case "||":
 		return Val{T: Or(fx.evalBool(env, t.X), fx.evalBool(env, t.Y))}
 	case "==>":
-		return Val{T: Implies(fx.evalBool(env, t.X), fx.evalBool(env, t.Y))}
+		env.neg = !env.neg
+		a := fx.evalBool(env, t.X)
+		env.neg = !env.neg
+		return Val{T: Implies(a, fx.evalBool(env, t.Y))}
 	case "<==>":
-		return Val{T: IdEq(fx.evalBool(env, t.X), fx.evalBool(env, t.Y))}
+		savedGoal := env.goal
+		env.goal = false
+		r := Val{T: IdEq(fx.evalBool(env, t.X), fx.evalBool(env, t.Y))}
+		env.goal = savedGoal
+		return r
 	}
 	x, y := fx.evalExpr(env, t.X), fx.evalExpr(env, t.Y)
 	// literals adapt to the other operand
@@ -531,6 +572,16 @@ var (
 
 func (fx *FX) evalCall(env *Env, t *ECall) Val {
 	w := fx.e.W
+	if m, ok := fx.e.CS.Macros[t.Fn]; ok {
+		if len(m.Params) != len(t.Args) {
+			env.fail("macro %s expects %d arguments", t.Fn, len(m.Params))
+		}
+		sub := map[string]Expr{}
+		for i, p := range m.Params {
+			sub[p] = t.Args[i]
+		}
+		return fx.evalExpr(env, substExpr(m.Expr, sub))
+	}
 	arg := func(i int) Val {
 		if i >= len(t.Args) {
 			env.fail("%s: missing argument %d", t.Fn, i)
@@ -591,6 +642,11 @@ func (fx *FX) evalCall(env *Env, t *ECall) Val {
 		env.fail("len of sort %s", x.T.Sort)
 	case "cap":
 		return Val{T: sCap(arg(0).T), Typ: types.Typ[types.Int]}
+	case "allmem":
+		return Val{T: fx.comp(env.st, "M:bv8", SArr(SInt, SBytes))}
+	case "isnan":
+		x := arg(0)
+		return Val{T: app("fp.isNaN", SBool, x.T)}
 	case "mem":
 		x := arg(0)
 		if x.T.Sort == SStr {
@@ -788,4 +844,52 @@ func (e *Engine) lookupType(name string) types.Type {
 		}
 	}
 	return nil
+}
+
+func isMapType(t types.Type) bool {
+	_, ok := t.Underlying().(*types.Map)
+	return ok
+}
+
+func substExpr(e Expr, sub map[string]Expr) Expr {
+	switch t := e.(type) {
+	case *EIdent:
+		if r, ok := sub[t.Name]; ok {
+			return r
+		}
+		return t
+	case *EUnary:
+		return &EUnary{Op: t.Op, X: substExpr(t.X, sub)}
+	case *EBinary:
+		return &EBinary{Op: t.Op, X: substExpr(t.X, sub), Y: substExpr(t.Y, sub)}
+	case *ECall:
+		n := &ECall{Fn: t.Fn}
+		for _, a := range t.Args {
+			n.Args = append(n.Args, substExpr(a, sub))
+		}
+		return n
+	case *EIndex:
+		return &EIndex{X: substExpr(t.X, sub), I: substExpr(t.I, sub)}
+	case *ESlice:
+		n := &ESlice{X: substExpr(t.X, sub)}
+		if t.Lo != nil {
+			n.Lo = substExpr(t.Lo, sub)
+		}
+		if t.Hi != nil {
+			n.Hi = substExpr(t.Hi, sub)
+		}
+		return n
+	case *EField:
+		return &EField{X: substExpr(t.X, sub), F: t.F}
+	case *EQuant:
+		inner := map[string]Expr{}
+		for k, v := range sub {
+			inner[k] = v
+		}
+		for _, v := range t.Vars {
+			delete(inner, v)
+		}
+		return &EQuant{All: t.All, Vars: t.Vars, Sorts: t.Sorts, Body: substExpr(t.Body, inner)}
+	}
+	return e
 }
